@@ -67,8 +67,8 @@ def gen_case(st, prop, index=None, tier='quick'):
         return g_tail(st, index)
     r = st['mode']
     if prop == 'C06':
-        mode = weighted(r, [('doc', 50), ('alphabet', 22), ('deep', 10),
-                            ('corpus', 4), ('sweep', 6), ('repeat', 8)])
+        mode = weighted(r, [('doc', 46), ('alphabet', 20), ('deep', 10),
+                            ('corpus', 4), ('sweep', 6), ('repeat', 8), ('wellformed', 6)])
     else:
         mode = weighted(r, [('recover', 45), ('doc', 28), ('alphabet', 13),
                             ('deep', 5), ('corpus', 4), ('repeat', 5)])
@@ -196,6 +196,19 @@ def g_sweep(st):
             'form': _form(st), 'skip_envs': [], 'recover': False, 'depth': 0}
 
 
+def g_wellformed(st):
+    """A fault-free document of the restricted sub-grammar (no math, verbatim or
+    list regions; every bracket an argument delimiter): it contains nothing a
+    diagnostic could be about, so both modes must return a tree."""
+    d = docgen.generate(st['doc'], restricted=True,
+                        profile=('plain', 'flat', 'deep', 'alternate', 'mixed')[st['doc'].randrange(5)])
+    rc = st['chunks']
+    plan = ('whole', 'tokens', 'lines', 'random')[rc.randrange(4)]
+    wire = simreader.chunk_text(rc, d.text, plan, d.bounds)
+    return {'mode': 'wellformed', 'profile': d.profile, 'plan': plan, 'wire': wire, 'faults': [],
+            'form': _form(st), 'skip_envs': [], 'recover': False, 'wellformed': True, 'depth': d.max_depth()}
+
+
 def g_recover(st, nalts=3):
     """C07(b): restricted sub-grammar, exactly one lost real closer or one
     truncation while a construct is open."""
@@ -223,7 +236,7 @@ def g_recover(st, nalts=3):
             'what': what, 'alts': alts, 'depth': d.max_depth()}
 
 
-GENERATORS = {'doc': g_doc, 'deep': g_deep, 'repeat': g_repeat, 'alphabet': g_alphabet,
+GENERATORS = {'doc': g_doc, 'deep': g_deep, 'repeat': g_repeat, 'wellformed': g_wellformed, 'alphabet': g_alphabet,
               'corpus': g_corpus, 'sweep': g_sweep, 'recover': g_recover}
 
 
@@ -546,7 +559,12 @@ def execute_one(case, props=('C06', 'C07')):
                 v = {'class': 'hang', 'detail': 'tolerance=%d exceeded %d ticks on %d chars'
                      % (t, budget, len(D)), 'tolerance': t}
             elif o.kind == 'diag':
-                if not cause_fits(o.exc, D):
+                if case.get('wellformed') and not applied:
+                    v = {'class': 'diagnostic-on-well-formed:%s' % o.exc,
+                         'detail': 'tolerance=%d raised %s (%s) on a fault-free document of the restricted grammar, '
+                                   'which contains nothing this diagnostic could be about' % (t, o.exc, o.msg),
+                         'tolerance': t}
+                elif not cause_fits(o.exc, D):
                     v = {'class': 'wrong-diagnostic:%s' % o.exc,
                          'detail': 'tolerance=%d raised %s (%s) but the input has no construct '
                                    'that this diagnostic is for' % (t, o.exc, o.msg), 'tolerance': t}
@@ -628,7 +646,7 @@ def execute_one(case, props=('C06', 'C07')):
                 count('c07.c.side-condition-skip')
         verdicts['C07'] = v
 
-    nontrivial = bool(applied) or case['mode'] in ('alphabet', 'repeat', 'tail')
+    nontrivial = bool(applied) or case['mode'] in ('alphabet', 'repeat', 'tail', 'wellformed')
     return {'verdicts': verdicts, 'log': log, 'digest': digest(log), 'counters': counters,
             'ticks': ticks, 'key': digest([D, case.get('skip_envs', [])]),
             'nontrivial': nontrivial, 'D': D, 'extra_summary': extra_summary, 'buckets': buckets,
